@@ -348,6 +348,10 @@ func ruleDevPropKind(c *Ctx) []Obligation {
 				if !isIf || !b.Dominates(sb) || found {
 					continue
 				}
+				// a test of the add/replace arm, not one that every deviation passes (target found, path absolute)
+				if ks := m.kindsAt(b); ks == nil || !ks["add"] && !ks["replace"] {
+					continue
+				}
 				// the condition (with what selects it, for a && chain) looks at the target's kind and at the
 				// deviate statement's property
 				kind, propSeen := false, false
@@ -639,7 +643,7 @@ func ruleAugNotSelf(c *Ctx) []Obligation {
 		return []Obligation{ok(R, con, at, "the ancestors of the result are compared with the augment; the result is replaced by nil when it is among them")}
 	}
 	if ok1 {
-		return []Obligation{ok(R, con, at, "the ancestors of the result are compared with the augment")}
+		return []Obligation{bad(R, con, at, "the ancestors of the result are compared with the augment, but the result is used as it is whatever the comparison says")}
 	}
 	return []Obligation{bad(R, con, c.InstrPos(finds[0].(ssa.Instruction)), "the lookup starts at the augment's own entry, so a relative path (`augment \"c\" { container c { … } }`, the slash forgotten) finds a node the augment defines: the augment is merged into that detached node, counted as applied, and its nodes are in no tree")}
 }
